@@ -43,6 +43,10 @@ func runReplay(path string) int {
 
 func runSelftest(which string, args []string) int {
 	switch which {
+	case "determinism":
+		return selftestDeterminism(args)
+	case "transparency":
+		return selftestTransparency()
 	case "warm":
 		b := common.Prepare("warm", true)
 		fmt.Printf("built %s and %s (%d seam sites)\n", b.WireSim, b.WireReal, len(b.Sites))
